@@ -38,10 +38,13 @@ CLAIMED = {
              "order, once per interval, never after remove; callbacks only for live, registered clients; onClosed after a failed "
              "read/write; run returns only on interrupt); every edge of those graphs, the client behaviours of ClientWriteImpl and "
              "seeded random histories (timers, clients, interrupts, nested operations in callbacks) run on the real Server over the "
-             "OS shim with a virtual clock; every activation, callback, poll and return of run() is validated by TLC against LoopAbs. "
-             "Interrupt from another thread racing with run() is explored separately with the cooperative scheduler (see DESIGN 5/C14).",
+             "OS shim with a virtual clock; listeners (connections from harness sockets) and establishers (connects to harness "
+             "listeners) are created, made ready and removed - also from inside callbacks; every activation, callback, poll and return "
+             "of run() is validated by TLC against LoopAbs. interrupt() from 1-3 other threads racing with run(): TLC model "
+             "InterruptImpl (never more returns than requests; every run returns) whose schedules, plus random and PCT schedules, "
+             "drive the real Server under the cooperative scheduler, validated against InterruptAbs.",
         ref="5/C14", technique="TLA+ refinement model checking (TLC) + state-graph replay over OS shim with virtual clock + TLC trace validation",
-        note="Trusts TLC, the OS shim (filters real epoll readiness, virtual CLOCK_MONOTONIC), the callback action queue of the harness; <= 6 timers, <= 3 clients; listener/establisher sockets not yet driven."),
+        note="Trusts TLC, the OS shim (filters real epoll readiness, virtual CLOCK_MONOTONIC), the callback action queue of the harness, the scheduler shim; <= 6 timers, <= 3 clients, 2 listeners, 2 establishers; host-name resolution (Future based) not driven."),
     "C11": dict(
         text="TLC model-checks PrimsImpl.tla - the code of Mutex/Semaphore/Signal/Monitor over a pthread model with recursive "
              "mutexes, spurious condition wake-ups and time-outs firing at any moment - for 8 scenario programs of 3-4 threads: "
@@ -126,8 +129,10 @@ CLAIMED = {
              "schedules which the REAL classes follow under the cooperative scheduler (the NSTD_VERIF hook in Atomic.hpp makes every "
              "atomic access a scheduling point); random programs of 2-4 threads run under random schedules. Handle values after every "
              "operation and pointee destructions are validated by TLC against RefHandles; ASan / LeakSanitizer observe use-after-"
-             "release, double release and leaks.",
-        ref="5/C09", technique="TLA+ model checking (TLC) + schedule replay through cooperative scheduler with atomic-access hooks + TLC trace validation",
+             "release, double release and leaks. In addition Apalache discharges an inductive invariant of the abstract protocol "
+             "(spec/conc/apalache/RefCountInd.tla: Init => IndInv, IndInv /\\ Next => IndInv', IndInv => Safety) for behaviours of "
+             "any length with 3 threads x 2 payloads.",
+        ref="5/C09", technique="TLA+ model checking (TLC) + Apalache inductive invariant + schedule replay through cooperative scheduler with atomic-access hooks + TLC trace validation",
         note="Sequential consistency at the granularity of atomic accesses; plain reads of the counter are not scheduling points; Xml::Variant's sharing is covered single-threaded by C16."),
     "C10": dict(
         text="TLC model-checks FuturePoolImpl.tla (PlusCal transcription of src/Future.cpp: lock-free ring with per-slot sequence "
